@@ -543,6 +543,7 @@ static ares_status_t read_answers(ares_conn_t *conn, const ares_timeval_t *now)
   ares_status_t   status;
   ares_channel_t *channel = conn->server->channel;
   ares_array_t   *requeue = NULL;
+  ares_socket_t   fd      = conn->fd;
 
   /* Process all queued answers */
   while (1) {
@@ -580,6 +581,14 @@ static ares_status_t read_answers(ares_conn_t *conn, const ares_timeval_t *now)
 
     /* We finished reading this answer; process it */
     status = process_answer(channel, data, data_len, conn, now, &requeue);
+
+    /* process_answer() may have completed a query, and the completion callback
+     * may have cancelled requests or started new ones; either can close this
+     * very connection.  Don't touch it any more if it is gone. */
+    if (ares_conn_from_fd(channel, fd) != conn) {
+      goto cleanup;
+    }
+
     if (status != ARES_SUCCESS) {
       handle_conn_error(conn, ARES_TRUE, status);
       goto cleanup;
